@@ -69,6 +69,7 @@ typedef struct {
 #define EXTEND_SVALUE_STRING(x, y, z) do {\
         char *ess_res; size_t ess_len; size_t ess_r; \
         ess_len = (ess_r = SVALUE_STRLEN(x)) + strlen(y); \
+        if (ess_len > (size_t) CONFIG_INT (__MAX_STRING_LENGTH__)) error ("*Maximum string length exceeded in concatenation."); \
         if ((x)->subtype == STRING_MALLOC && MSTR_REF((x)->u.string) == 1) { \
           ess_res = (char *) extend_string((x)->u.string, ess_len); \
           if (!ess_res) fatal("Out of memory!\n"); \
@@ -87,6 +88,7 @@ typedef struct {
 #define SVALUE_STRING_ADD_LEFT(y, z) do {\
         char *pss_res; size_t pss_r; size_t pss_len; \
         pss_len = SVALUE_STRLEN(sp) + (pss_r = strlen(y)); \
+        if (pss_len > (size_t) CONFIG_INT (__MAX_STRING_LENGTH__)) error ("*Maximum string length exceeded in concatenation."); \
         pss_res = new_string(pss_len, z); \
         strcpy(pss_res, y); \
         strcpy(pss_res + pss_r, sp->u.string); \
@@ -101,6 +103,7 @@ typedef struct {
         char *ssj_res; size_t ssj_r; size_t ssj_len; \
         ssj_r = SVALUE_STRLEN(x); \
         ssj_len = ssj_r + SVALUE_STRLEN(y); \
+        if (ssj_len > (size_t) CONFIG_INT (__MAX_STRING_LENGTH__)) error ("*Maximum string length exceeded in concatenation."); \
         if ((x)->subtype == STRING_MALLOC && MSTR_REF((x)->u.string) == 1) { \
             ssj_res = (char *) extend_string((x)->u.string, ssj_len); \
             if (!ssj_res) fatal("Out of memory!\n"); \
